@@ -14,6 +14,7 @@ var checks = map[string]func(tier string) int{
 	"C04": props.CheckC04,
 	"C05": props.CheckC05,
 	"C06": props.CheckC06,
+	"C07": props.CheckC07,
 	"C09": props.CheckC09,
 	"C10": props.CheckC10,
 	"C11": props.CheckC11,
